@@ -466,17 +466,22 @@ pub fn run_main(args: &[String]) -> i32 {
             None => harness_errors.push("determinism re-check worker failed".into()),
         }
     }
-    // every new violation must replay in a fresh process
-    for v in &violations {
+    // every new violation must replay in a fresh process; those that do not are reported separately
+    let mut unstable: Vec<FailureRecord> = vec![];
+    violations.retain(|v| {
         if v.rule == "crash" {
-            continue;
+            return true;
         }
         let o = Command::new(&exe).args(["replay", &v.replay]).output();
-        match o {
-            Ok(o) if o.status.code() == Some(1) && String::from_utf8_lossy(&o.stdout).contains("REPRODUCED exactly") => {}
-            Ok(o) => harness_errors.push(format!("replay of {} did not reproduce exactly: {}", v.replay, String::from_utf8_lossy(&o.stdout).lines().last().unwrap_or(""))),
-            Err(e) => harness_errors.push(format!("replay of {}: {e}", v.replay)),
+        let ok = matches!(&o, Ok(o) if o.status.code() == Some(1) && String::from_utf8_lossy(&o.stdout).contains("REPRODUCED exactly"));
+        if !ok {
+            unstable.push(v.clone());
         }
+        ok
+    });
+    for v in &unstable {
+        let _ = std::fs::remove_file(&v.replay);
+        harness_errors.push(format!("a violation ({}) found at run index {} did not replay exactly in a fresh process (memory corruption by the code under test, or a nondeterministic harness)", v.sig, v.index));
     }
     let wall = t0.elapsed().as_secs_f64();
     for (id, (n, what)) in &known {
@@ -508,10 +513,11 @@ pub fn run_main(args: &[String]) -> i32 {
         std::fs::write(sp, serde_json::to_string_pretty(&summary).unwrap()).unwrap();
     }
     let _ = std::fs::remove_dir_all(&scratch);
-    if !harness_errors.is_empty() {
-        2
-    } else if !violations.is_empty() {
+    // a violation that replays exactly is a verdict even if other workers were wrecked on the way (e.g. by heap corruption)
+    if !violations.is_empty() {
         1
+    } else if !harness_errors.is_empty() {
+        2
     } else {
         0
     }
